@@ -351,11 +351,20 @@ func ruleC10(r *Report) {
 				continue
 			}
 			for i, fld := range []string{"keyEncrypter", "keyDecrypter"} {
-				cl, _ := a.Fields[fld].(*ssa.MakeClosure)
+				fv := a.Fields[fld]
+				for {
+					// a literal converted to a named function type
+					if ct, ok := fv.(*ssa.ChangeType); ok {
+						fv = ct.X
+						continue
+					}
+					break
+				}
+				cl, _ := fv.(*ssa.MakeClosure)
 				var fn *ssa.Function
 				if cl != nil {
 					fn = cl.Fn.(*ssa.Function)
-				} else if f, ok := a.Fields[fld].(*ssa.Function); ok {
+				} else if f, ok := fv.(*ssa.Function); ok {
 					fn = f
 				}
 				c2 := fmt.Sprintf("%s: %s of %s", a.Name, fld, uri)
@@ -372,7 +381,7 @@ func ruleC10(r *Report) {
 							if strings.HasSuffix(prim, "OAEP") {
 								an := NewAnalysis(p)
 								hap := an.Ctx(fn).AP(c.Call.Args[0])
-								if !strings.HasSuffix(hap, ".DigestMethod.Hash()") {
+								if !strings.HasSuffix(hap, ".DigestMethod.Hash()") && !digestParamHash(p, fn, fld, c.Call.Args[0]) {
 									hashOK = false
 								}
 							}
@@ -836,4 +845,47 @@ func checkC10Digest(r *Report, p *Prog) {
 			}
 		}
 	}
+}
+
+// digestParamHash: the hash handed to the RSA primitive is dm.Hash() for a DigestMethod parameter dm of the key-transport
+// function fn, and every call through the field fld (e.keyEncrypter(...)) in the package passes the value's own
+// DigestMethod for that parameter.
+func digestParamHash(p *Prog, fn *ssa.Function, fld string, hash ssa.Value) bool {
+	hc, ok := hash.(*ssa.Call)
+	if !ok || !hc.Call.IsInvoke() || hc.Call.Method.Name() != "Hash" {
+		return false
+	}
+	prm, ok := hc.Call.Value.(*ssa.Parameter)
+	if !ok || prm.Parent() != fn || !typeIs(prm.Type(), xmlencPath, "DigestMethod") {
+		return false
+	}
+	idx := paramIndex(fn, prm)
+	n := 0
+	for _, f := range p.modFns {
+		if f.Pkg == nil || f.Pkg.Pkg.Path() != xmlencPath || !p.InLibrary(f) {
+			continue
+		}
+		fc := NewAnalysis(p).Ctx(f)
+		for _, b := range f.Blocks {
+			for _, in := range b.Instrs {
+				c, ok := in.(*ssa.Call)
+				if !ok || c.Call.IsInvoke() || c.Call.StaticCallee() != nil {
+					continue
+				}
+				ld, ok := c.Call.Value.(*ssa.UnOp)
+				if !ok {
+					continue
+				}
+				fa, ok := ld.X.(*ssa.FieldAddr)
+				if !ok || fieldName(fa.X.Type(), fa.Field) != fld {
+					continue
+				}
+				n++
+				if idx >= len(c.Call.Args) || !strings.HasSuffix(fc.AP(c.Call.Args[idx]), ".DigestMethod") {
+					return false
+				}
+			}
+		}
+	}
+	return n > 0
 }
